@@ -5,6 +5,7 @@ package dnsforward
 import (
 	"fmt"
 	"net/netip"
+	"sort"
 	"strings"
 	"testing"
 
@@ -152,6 +153,13 @@ func c02Monitor(c *plCfg, q *plQuery, o *plObs, viaCache bool) (ok bool, msg str
 	// viaCache: a repeated question whose first ask was forwarded; the proxy
 	// cache may answer in place of the upstream
 	forwarded := len(o.Calls) == 1 || (viaCache && len(o.Calls) == 0)
+	if len(o.Calls) == 1 && !strings.EqualFold(o.Calls[0].Name, q.Name) {
+		// the only upstream call is not for the client's question: the lookup
+		// of a block page given as a name (safe browsing / parental verdict
+		// at the request stage); the question itself was not forwarded
+		forwarded = false
+		classes = append(classes, "blockpage-lookup-only")
+	}
 	texts, kinds := c02Texts(c, q.Answer.Answer)
 
 	if respBlocked {
@@ -289,6 +297,11 @@ func TestVerifC02(t *testing.T) {
 		o := ps.run(q)
 		lastObs = o
 		ok, msg, classes := c02Monitor(ps.cfg, q, &o, viaCache && ctor == "CRepeat")
+		adOK, adMsg, adClasses := plADMonitor(ps.cfg, &o)
+		if ok && !adOK {
+			ok, msg = false, adMsg
+		}
+		classes = append(classes, adClasses...)
 		res := o.Result
 		var defs []vfDef
 		coq := plCaseCoqShared(ctor, ps, q, &o, &defs)
@@ -459,7 +472,9 @@ func TestVerifC02(t *testing.T) {
 
 	{
 		// round 2: rewritten questions and $dnsrewrite rules next to response filtering
-		tgt := func(name string, rrs ...dns.RR) map[string]*dns.Msg { return map[string]*dns.Msg{name: plMsg(0, rrs...)} }
+		tgt := func(name string, rrs ...dns.RR) map[string]*dns.Msg {
+			return map[string]*dns.Msg{name: plMsg(0, rrs...)}
+		}
 		c := base()
 		c.Rewrites = []plRewrite{{"x.test", "cdn.example"}}
 		ps := plNewServer(t, c)
@@ -574,7 +589,13 @@ func TestVerifC02(t *testing.T) {
 			q.Answer = c02Answer(rnd, q.Name, q.QType)
 			q.PrintAskedOnly = true
 			delete(q.Extra, strings.ToLower(q.Name))
+			// (in sorted order: the draws must not depend on map iteration)
+			var extraNames []string
 			for n := range q.Extra {
+				extraNames = append(extraNames, n)
+			}
+			sort.Strings(extraNames)
+			for _, n := range extraNames {
 				if q.Extra[n] != nil {
 					q.Extra[n] = c02Answer(rnd, n, q.QType)
 				}
